@@ -532,6 +532,8 @@ func call(i *interpreter, caller *frame, callpos token.Pos, fn value, args []val
 		return callSSA(i, caller, callpos, fn.Fn, args, fn.Env)
 	case *ssa.Builtin:
 		return callBuiltin(caller, callpos, fn, args)
+	case *nativeFn:
+		return fn.f(caller, args)
 	case bad:
 		panic(pathEnd{stUnsupported, "call of poisoned value: " + fn.why})
 	}
@@ -736,6 +738,13 @@ type goexitPanic struct{}
 
 // rtPanic raises a Go run-time panic in the target program.
 func rtPanic(fr *frame, msg string) {
+	if fr.i.w != nil && fr.i.w.verbose {
+		chain := ""
+		for f, k := fr, 0; f != nil && k < 5; f, k = f.caller, k+1 {
+			chain += " <- " + f.fn.String() + "@" + f.pos()
+		}
+		fmt.Fprintln(os.Stderr, "rtPanic:", msg, chain)
+	}
 	panic(targetPanic{iface{fr.i.runtimeErrorString, "runtime error: " + msg}})
 }
 
